@@ -36,7 +36,7 @@ FamC == /\ fam = "C"
            \E term \in C_TermsC, tl \in BOOLEAN, h \in C_HdrsC :
                (h # <<>> => term # "") /\ x = Case(sel \o CatN([i \in 1..k |-> "\t" \o f[i]], 1, k) \o term, tl, h)
 
-NoRes == [al |-> <<>>, det |-> <<>>, m |-> <<>>, pos |-> 0, dt |-> TRUE]
+NoRes == [al |-> <<>>, det |-> <<>>, m |-> <<>>, mc |-> <<>>, pos |-> 0, dt |-> TRUE]
 Init == phase = "in" /\ res = NoRes /\ (FamA \/ FamB \/ FamC)
 
 Listed == {C_Listed[i] : i \in 1..Len(C_Listed)}
@@ -57,6 +57,7 @@ Compute == /\ phase = "in" /\ phase' = "done"
                 res' = [al  |-> [p \in Listed |-> tst.al[p].r],
                         det |-> [l \in 1..NL |-> tst.det[l].p],
                         m   |-> MatchTable(Listed, x),
+                        mc  |-> IF GluedAcceptUnrecognised THEN MatchTableCoded(Listed, x) ELSE <<>>,
                         pos |-> tst.det[1].conn.pos,
                         dt  |-> \A l \in 1..NL :
                                    DeterministicAt(C_Lists[l], px, {tst.al[p].conn : p \in Listed} \ {FreshConn}, tst.det[l].p)]
@@ -74,11 +75,15 @@ KnownAt(p) == Known /\ p \in PlusFamily /\ (Secure(p) <=> x.tls)
 KnownCrash(got) == Known /\ got = "crash"           \* in this model "crash" has no other source
 Done == phase = "done"
 
-ClaimsMatchShape == Done => \A p \in Listed : KnownAt(p) \/ ClaimsMatchShapeAt(p, res.m, res.al[p])
+\* second recorded deviation (GluedAcceptUnrecognised): the answers may follow the header block as the code reads it
+GluedClaim(p, r) == GluedAcceptUnrecognised /\ p = "WAPProtocol" /\ ClaimsMatchShapeAt(p, res.mc, r)
+GluedOrder(l)    == GluedAcceptUnrecognised /\ OrderedAt(C_Lists[l], res.mc, res.det[l])
+
+ClaimsMatchShape == Done => \A p \in Listed : KnownAt(p) \/ ClaimsMatchShapeAt(p, res.m, res.al[p]) \/ GluedClaim(p, res.al[p])
 Total            == Done => KnownCrash(res.det[1]) \/ TotalAt(res.det[1])
 TlsStrict        == Done => \A l \in 1..NL : TlsStrictAt(x.tls, res.det[l])
 Ordered          == Done => \A l \in 1..NL :
-                        /\ KnownCrash(res.det[l]) \/ OrderedAt(C_Lists[l], res.m, res.det[l])
+                        /\ KnownCrash(res.det[l]) \/ OrderedAt(C_Lists[l], res.m, res.det[l]) \/ GluedOrder(l)
                         /\ res.det[l] = FirstClaimant(C_Lists[l], 1, res.al)
 Deterministic    == Done => res.dt
 \* the recorded defect is what the model says it is (keeps the weakening exact)
